@@ -24,6 +24,11 @@ CLAIMED = {
   note="Trusted: Go type checker, go/ssa, the explorer's path classes and branch history; GetLockedLock's containers are assumed to return a hold with the requested LockId.",
   technique="path-sensitive SSA guard/provenance analysis (value provenance through resolved phis, effect sets on refusal paths), custom checker",
   ref="DESIGN.md section 4 C02"),
+ "C15": dict(
+  text="Static analysis: on every path that applies a value operation and then answers, the reply's value is a GetLockData() result read before the operation in the same shard-mutex section (14 reply/operation pairs); refusal replies never follow a value operation; the operation switches are exhaustive over LOCK_DATA_COMMAND_TYPE_*; the Redis-style commands are registered in all three registries; published value frames are immutable (121 write sites in the value-operation code never target the manager's current frame). The byte surgery of each operation and the numeric results are not decided, hence 'other'.",
+  note="Trusted: Go type checker, go/ssa, the explorer; slice-origin classification is flow-insensitive (may-alias through append, phis and local cells).",
+  technique="path-sensitive SSA ordering analysis + slice-origin (may-alias) classification + switch/registry exhaustiveness over the typed syntax tree, custom checker",
+  ref="DESIGN.md section 4 C15"),
 }
 
 NA = {
